@@ -553,7 +553,7 @@ def rule_index_clamp(ctx: Ctx) -> RuleResult:
     test has to fire for i == len(s) (`>=`).  With `>` an index one past the end survives: a non-empty walker reports
     no focus widget and focus_position raises."""
     p = ctx.p
-    rr = RuleResult("BOUND", "C08.15", "an index is clamped to len - 1 under `index >= len` (not `>`)", floor=1)
+    rr = RuleResult("BOUND", "C08.15", "an index is clamped to max(0, len - 1) under `index >= len` (not `>`, not below 0)", floor=2)
     for fi in p.functions.values():
         if not fi.module.name.startswith("urwid.widget"):
             continue
@@ -575,6 +575,14 @@ def rule_index_clamp(ctx: Ctx) -> RuleResult:
             rr.inst(f"{short(fi)}:{norm(n.test, 40)}", True, {"function": short(fi), "test": norm(n.test, 50), "clamp": norm(clamp[0], 50)})
             if first != 0:
                 rr.add(finding("BOUND", fi, n, f"`{norm(n.test, 50)}` does not fire for {lhs} == {L}, so `{norm(clamp[0], 50)}` leaves an index one past the end in place: after the list shrank to exactly the old focus index a non-empty walker has no focus widget", construct=f"index clamp test {norm(n.test, 50)}"))
+            # the clamp fires for an emptied list too (0 >= 0): len - 1 is then -1 - the stored index has to be
+            # max(0, len - 1), otherwise a refill leaves the focus on the *last* item "at position -1" and the items
+            # wrap around in the view
+            v = clamp[0].value
+            nonneg = isinstance(v, ast.Call) and callee_name(v) == "max" and any(isinstance(a, ast.Constant) and a.value == 0 for a in v.args)
+            rr.inst(f"{short(fi)}:{norm(clamp[0], 40)}:floor", True, {"clamp": norm(clamp[0], 50), "non_negative": nonneg})
+            if not nonneg:
+                rr.add(finding("BOUND", fi, clamp[0], f"`{norm(clamp[0], 50)}` stores {L} - 1 without max(0, ...): the test also fires for an emptied list, the index becomes -1 and stays so after a refill - the focus is the last item 'at position -1', next_position(-1) is 0, and the view shows the items wrapped around", construct=f"index clamped to {L} - 1 without a floor of 0"))
     return rr
 
 
@@ -608,7 +616,8 @@ def rule_stale_position(ctx: Ctx) -> RuleResult:
             for t, lab in at.succ:
                 if lab == "e" and t.kind == "handler" and t.ast.type is not None:
                     handled |= {x.id for x in ast.walk(t.ast.type) if isinstance(x, ast.Name)}
-            ok = "IndexError" in handled or "LookupError" in handled or "Exception" in handled
+            # both ways a walker can say "no such position": IndexError (list-like) and KeyError (mapping-like walkers)
+            ok = ({"IndexError", "KeyError"} <= handled) or "LookupError" in handled or "Exception" in handled
             rr.inst(f"{short(fi)}:{norm(c, 40)}", True, {"function": short(fi), "call": norm(c, 50), "handled": sorted(handled)})
             if not ok:
                 rr.add(finding("EXC", fi, c, f"`{norm(c, 50)}` restores the position that set_focus() parked in set_focus_pending during an earlier call without handling the walker's IndexError: when the list shrank in between (focus moved, then items deleted, then render) the error escapes render()/keypress()", construct=f"stale position restored unguarded: {norm(c, 50)}"))
@@ -857,6 +866,8 @@ _C = "urwid/widget/columns.py"
 _G = "urwid/widget/grid_flow.py"
 _F = "urwid/widget/frame.py"
 MUTANTS = [
+    Mut("walker-clamp-without-floor", "urwid/widget/listbox.py", "SimpleListWalker._modified", "            self.focus = max(0, len(self) - 1)", "            self.focus = len(self) - 1", "BOUND|widget.listbox.SimpleListWalker._modified|index clamped to len(self) - 1 without a floor of 0"),
+    Mut("stale-position-only-indexerror", "urwid/widget/listbox.py", "ListBox._set_focus_complete", "        except (IndexError, KeyError):", "        except IndexError:", "EXC|widget.listbox.ListBox._set_focus_complete"),
     Mut("listbox-focus-position-truthy-widget", "urwid/widget/listbox.py", "ListBox._get_focus_position", "        if w is None:", "        if not w:", "SENTINEL|widget.listbox.ListBox._get_focus_position|widget w tested for truthiness"),
     Mut("listbox-rows-max-truthy-focus", "urwid/widget/listbox.py", "ListBox.rows_max", "            if focused_w is not None:  # an empty container is falsy but still a widget", "            if focused_w:", "SENTINEL|widget.listbox.ListBox.rows_max|widget focused_w tested for truthiness"),
     Mut("pile-item-types-reads-focus-of-empty", "urwid/widget/pile.py", "urwid.widget.pile.Pile.item_types", "        focus_position = self.focus_position if self.contents else 0\n", "        focus_position = self.focus_position\n", "GUARD|widget.pile.Pile.item_types|item_types setter: focus_position read without emptiness guard", nth=0),
